@@ -596,6 +596,8 @@ DIRECTED = [
     ['m::[["p" "q"] ["r" "s"]]', 'd::m:-"z",[0 1]', 'm', 'c::1_m', 'd::c:-:foo,[0 0]', 'm', 'c'],
     ['lit::{[["a" "b"] ["c" "d"]]}', 'd::lit():-"z",[0 1]', 'lit()', 'd::[["a" "b"] ["c" "d"]]:-"z",[1 1]', 'd::[["a" "b"] ["c" "d"]]:-"z",[1 1]'],
     ['.module(:m1)', 't::0', 't::t+1', '.module(0)', 't::10', 't::t+1', 't'],
+    ['.module(:m)', 't::100', 'acc::[]', 'f::{[t];t::x*2;t+1}', 'h::{[acc];acc::[0];acc,x}', 'g::{t}', 'f(5)', 't', 'f(6)', 'g()', 'h(7)', 'acc', '.module(0)', 'f(1)', 'g()', 'h(2)'],
+    ['t::100', 'f::{[t];t::x*2;t+1}', 'f(5)', 't', '.module(:m)', 't::7', 'f(5)', 't', 'k5::{[t u];t::x;u::t*2;u}', 'k5(4)', 't', '.module(0)', 'k5(1)', 't'],
     ['.module(:m1)', 't::0', 't*2', '.module(0)', '.module(:m2)', 't*2', 't::7', 't*2', '.module(0)', 't*2'],
     ['f3::{:{[1 2]}}', 'dd::f3()', 'dd,[3 4]', 'f3()', ':{[7 8]}', 'e2:::{[7 8]}', 'e2,[9 0]', ':{[7 8]}', 'e2:::{[7 8]}', 'e2'],
     ['.module(:m1)', 't::1', '.module(0)', 't::10', '.module(:m1)', 't::5', 't', '.module(0)', 't', '.module(:m1)', 't'],
@@ -620,7 +622,8 @@ def gen_sequences(rng, tier):
         yield seq, "random"
 
 
-MOD_TEXTS = ['t::t+1', 't', 'u::t*2', 't::5', 't*2', 'w::{t+x}', 'w(1)', 'u', 't::t,1', '#t']
+MOD_TEXTS = ['t::t+1', 't', 'u::t*2', 't::5', 't*2', 'w::{t+x}', 'w(1)', 'u', 't::t,1', '#t',
+             'f::{[t];t::x*2;t+1}', 'f(5)', 'g::{t}', 'g()', 'acc::[]', 'h::{[acc u];acc::[0];u::x;acc,u}', 'h(7)', 'acc']
 
 
 def gen_module_sequences(rng, tier):
@@ -640,6 +643,83 @@ def gen_module_sequences(rng, tier):
             seq += ['.module(:m2)' + " " * next(sp)] + (['t::7'] if rng.random() < 0.5 else []) + [rng.choice(texts) for _ in range(rng.randint(1, 2))]
             seq += ['.module(0)' + " " * next(sp)] + [rng.choice(texts) for _ in range(rng.randint(1, 2))]
         yield seq, "modules"
+
+
+def gen_long_sequences(rng, tier):
+    """long strings (64, 65, 200 characters) and long integer lists as Amend operands, followed by reads of the same
+    variable, of an equal literal and re-evaluation of the same texts; the expected results come from a reference over
+    immutable Python values (an in-process A/B experiment cannot see a cache shared by all interpreters)"""
+    import string
+    n = 60 if tier == "quick" else (200 if tier == "escalate" else 800)
+    alpha = string.ascii_lowercase + string.digits
+    for it in range(n):
+        seq, exp = [], []
+        store = {}
+        def can(v):
+            if isinstance(v, str):
+                return sx(["c", ord(v)]) if getattr(v, "_chr", False) else sx(["s"] + [ord(c) for c in v])
+            if isinstance(v, int):
+                return sx(["i", v])
+            return sx(["l"] + [["i", z] for z in v])
+        def emit(text, val, ch=False):
+            seq.append(text)
+            exp.append(sx(["c", ord(val)]) if ch else can(val))
+        kind = "str" if rng.random() < 0.7 else "list"
+        L = rng.choice([64, 65, 200, 70, 128])
+        if kind == "str":
+            base = "".join(rng.choice(alpha) for _ in range(L))
+            lit = '"%s"' % base
+        else:
+            base = [rng.randint(0, 9) for _ in range(L)]
+            lit = "[%s]" % " ".join(map(str, base))
+        store["s"] = base
+        emit("s::%s" % lit, base)
+        texts = []
+        for _ in range(rng.randint(4, 8)):
+            k = rng.random()
+            src = rng.choice(list(store))
+            val = store[src]
+            i = rng.randint(0, min(len(val), 20) - 1)
+            if k < 0.35:
+                if kind == "str":
+                    c = rng.choice("ABCDEFGHTUVW")
+                    new = val[:i] + c + val[i + 1:]
+                    t = "d::%s:=0c%s,%d" % (src, c, i)
+                else:
+                    c = rng.randint(10, 99)
+                    new = val[:i] + [c] + val[i + 1:]
+                    t = "d::%s:=%d,%d" % (src, c, i)
+                store["d"] = new
+                emit(t, new); texts.append((t, new, False))
+            elif k < 0.55:
+                t = "%s@%d" % (src, i)
+                emit(t, val[i], ch=(kind == "str")); texts.append((t, val[i], kind == "str"))
+            elif k < 0.7:
+                m_ = rng.randint(1, 12)
+                t = "%d#%s" % (m_, src)
+                emit(t, val[:m_])
+            elif k < 0.8:
+                t = "%s@%d" % (lit, i)
+                emit(t, base[i], ch=(kind == "str"))
+            elif k < 0.9 and texts:
+                t, v_, ch = rng.choice(texts)
+                if t.startswith("d::"):
+                    # the same Amend text again: its operand variable may have been re-bound meanwhile
+                    src2 = t[3:].split(":=")[0]
+                    rest = t.split(":=")[1]
+                    cpart, ipart = rest.rsplit(",", 1)
+                    v0 = store[src2]
+                    ii = int(ipart)
+                    cv = cpart[2:] if kind == "str" else int(cpart)
+                    v_ = v0[:ii] + (cv if kind == "str" else [cv]) + v0[ii + 1:]
+                    store["d"] = v_
+                    emit(t, v_)
+                else:
+                    srcn = t.split("@")[0]
+                    emit(t, store[srcn][int(t.split("@")[1])], ch=ch)
+            else:
+                emit(src, val)
+        yield seq, ("long", exp)
 
 
 def gen_cache_sequences(rng, tier):
@@ -773,7 +853,7 @@ def replay_known(chk):
 
 def check_all(chk, rng, tier):
     seqs = []
-    for g in (gen_sequences, gen_cache_sequences, gen_view_sequences, gen_module_sequences):
+    for g in (gen_sequences, gen_cache_sequences, gen_view_sequences, gen_module_sequences, gen_long_sequences):
         seqs.extend(g(rng, tier))
     out = run_child_sharded([s for s, _ in seqs])
     bad_props, bad_corrs = [], []
@@ -793,6 +873,16 @@ def check_all(chk, rng, tier):
                 reqs.append("(hist (%s) (%s))" % (table, " ".join(str(tb[r["text"]]) for r in recs)))
             else:
                 chk.count("skipped_unmodelled_text")
+        elif k == "long":
+            for i, (r, want) in enumerate(zip(recs, kind[1])):
+                chk.count("compared_statements")
+                # a character: harness/canon.py knows klongpy.types.KGChar only; the backend's own KGChar class shows as a 1-string
+                ok_set = {want, want.replace("(c ", "(s ")} if want.startswith("(c ") else {want}
+                if r["rA"] not in ok_set:
+                    bad_props.append({"kind": "statement %d `%s` gives %s; over immutable values it is %s (same text and variable values)" % (
+                        i, r["text"][:60], r["rA"][:120], want[:120]), "family": "long", "statements": seq, "at": i,
+                        "results_A": [x["rA"][:80] for x in recs], "expected": [w[:80] for w in kind[1]]})
+                    break
         elif k == "views":
             req_of[idx] = len(reqs)
             reqs.append("(heap (%s))" % " ".join(kind[1]))
